@@ -24,7 +24,6 @@ from orquesta import exceptions as exc
 from orquesta.expressions import base as expr_base
 from orquesta.specs import types as spec_types
 from orquesta.utils import expression as expr_util
-from orquesta.utils import parameters as args_util
 from orquesta.utils import schema as schema_util
 from orquesta.utils import strings as str_util
 from orquesta.utils import yml as yaml_util
@@ -525,13 +524,6 @@ class Spec(object):
                 rolling_ctx = list(set(rolling_ctx + result[1]))
 
                 continue
-
-            # Parse inline parameters from value if value is a string.
-            if isinstance(prop_value, str):
-                inline_params = args_util.parse_inline_params(prop_value)
-
-                if inline_params:
-                    prop_value = inline_params
 
             # Preserve evaluation order if value is a list.
             if isinstance(prop_value, list):
